@@ -366,12 +366,10 @@ def _part_loop_var(L):
 
 
 def _by_counter_key(k):
-    k = F.strip(k)
-    if k[0] == 'lambda' and k[1] == 1 and k[2][0] == 'sub' and k[2][1][0] == 'bound' and k[2][1][2] == 0 and k[2][2] == ('const', 'counter'):
-        return True
-    if k[0] == 'call' and func_name(k[2]) == 'itemgetter' and k[3] == (('const', 'counter'),):
-        return True
-    return False
+    try:
+        return key_body(None, k) == ('sub', ('bound', 0, 0), ('const', 'counter'))
+    except F.Unsupported:
+        return False
 
 
 def _sorted_by_counter(it, before):
@@ -608,6 +606,10 @@ def finalise_under_lock(flow, path):
                 for tcall in F.subterms(d.a):
                     if tcall[0] == 'call' and F.sym_uid(tcall) is not None and F.mentions(tcall, pending):
                         where += [x for x in events[:k] if x.kind == 'call' and F.sym_uid(x.a) == F.sym_uid(tcall)]
+                # a helper that returns the test: it was read where the helper returned it
+                lit = F.canon_lit(d.a, d.b)[0]
+                where += [x for x in events[:k] if x.kind == 'return' and x.a is not None and any(fr[0] == 'inline' for fr in x.ctx)
+                          and F.mentions(x.a, pending) and F.canon_lit(x.a, True)[0] == lit]
                 if not where:
                     where = [d]
                 for w in where:
@@ -681,6 +683,13 @@ def records_chunkless(path):
             continue
         L = e.a
         it = F.strip(unwrap_iter(L.iter))
+        prefilter = []
+        if it[0] == 'comp' and it[2] in ('list', 'gen') and len(it[4]) == 1 and len(it[3]) == 1:
+            # [f for _, f in state.files if f.path not in D]: the loop sees the files themselves; the filter is checked below
+            (src, celem, conds), elt = it[4][0], it[3][0]
+            src = F.strip(unwrap_iter(src))
+            if src[0] == 'attr' and src[2] == 'files' and F.mentions(elt, celem):
+                it, prefilter = src, [(c, F.strip(elt)) for c in conds]
         if not (it[0] == 'attr' and it[2] == 'files'):
             continue
         if any(q.status not in ('run', 'continue') for q in L.paths):
@@ -715,6 +724,9 @@ def records_chunkless(path):
             continue
         # an iteration that records nothing must know that the file already has an entry
         if any(membership(q, key, d) is not True for q in quiet):
+            continue
+        # a filter in front of the loop may only drop files that already have an entry
+        if any(F.canon_lit(c, True) != (('cmp', 'in', ('attr', elt, 'path'), F.strip(d)), False) for c, elt in prefilter):
             continue
         # the dict is what the snapshot lists afterwards
         if _listed_afterwards(path.events[i + 1:], F.sym_uid(d)):
@@ -1279,7 +1291,8 @@ def write_truncate(flow):
                 writes = [x for x in events if x.kind == 'call' and x.a[0] == 'call' and x.a[2][0] == 'attr' and x.a[2][2] == 'write'
                           and F.same(x.a[2][1], fobj) and len(x.a[3]) == 1 and x.c != 'inlined']
                 seeks = [x for x in events if x.kind == 'call' and x.a[0] == 'call' and x.a[2][0] == 'attr' and x.a[2][2] == 'seek'
-                         and F.same(x.a[2][1], fobj) and len(x.a[3]) == 1 and x.c != 'inlined']
+                         and F.same(x.a[2][1], fobj) and x.c != 'inlined' and (len(x.a[3]) == 1 or (
+                             len(x.a[3]) == 2 and F.strip(x.a[3][1]) in (('const', 0), ('attr', ('name', 'os'), 'SEEK_SET'), ('attr', ('name', 'io'), 'SEEK_SET'))))]
                 if len(writes) != 1 or len(seeks) != 1:
                     continue
                 data, off = F.strip(writes[0].a[3][0]), F.strip(seeks[0].a[3][0])
@@ -1293,7 +1306,16 @@ def write_truncate(flow):
                             and x[3][0] == ('const', 0) and x[3][1] in (('attr', ('name', 'io'), 'SEEK_END'), ('attr', ('name', 'os'), 'SEEK_END'), ('const', 2)):
                         return 'file_end'
                     return None
-                cands.append(translate(sym_src(cp[1][0], leaf), {'file_end': ('fileEnd', 'nat'), 'offset': ('off', 'nat'), 'dlen': ('dlen', 'nat')}, 'nat'))
+                names = {'file_end': ('fileEnd', 'nat'), 'offset': ('off', 'nat'), 'dlen': ('dlen', 'nat')}
+                arg = F.strip(cp[1][0])
+                # max(a, b) written as a branch: this path knows which of the two is the larger one
+                for c, pol in F.known([(y.a, y.b) for y in events[:i] if y.kind == 'cond']):
+                    if c[0] == 'cmp' and c[1] == '<' and arg in (c[2], c[3]):
+                        lo, hi = (c[2], c[3]) if pol else (c[3], c[2])        # lo < hi, or lo <= hi
+                        if arg == hi:
+                            both = sorted([lo, hi], key=lambda t: 0 if leaf(t) == 'file_end' else 1)
+                            arg = ('call', 0, ('name', 'max'), tuple(both), ())
+                cands.append(translate(sym_src(arg, leaf), names, 'nat'))
     if not cands or len(set(cands)) != 1:
         raise Untranslatable(f'write-part code not recognised ({len(set(cands))} candidates)')
     return cands[0]
@@ -1385,28 +1407,83 @@ def location_split(flow, meth, prefix, nparts):
     return next(iter(vals)) if len(vals) == 1 else None
 
 
-def files_list_facts(paths):
-    """(dedups, sorted by (size, path)) about the file list of snapshot: the list that is sorted in place and then streamed"""
+def key_body(flow, k):
+    """the value a sort key computes from its argument ('bound', 0, 0): body of a lambda, or of a method / function given by name"""
+    if k[0] == 'lambda' and k[1] == 1:
+        return F.strip(k[2])
+    if k[0] in ('method', 'func') and k[1] in F.FUNCS:
+        node, cls, mod = F.FUNCS[k[1]]
+        params = [a.arg for a in node.args.posonlyargs + node.args.args]
+        decos = [d.id for d in node.decorator_list if isinstance(d, ast.Name)]
+        if cls is not None and 'staticmethod' not in decos:
+            params = params[1:]
+        if len(params) != 1:
+            return None
+        paths = mod.run(node, cls, args={params[0]: ('bound', 0, 0)})
+        vals = {F.strip(p.value) for p in paths if p.status == 'return'}
+        return vals.pop() if len(vals) == 1 else None
+    if k[0] == 'call' and func_name(F.strip(k[2])) == 'itemgetter' and len(k[3]) == 1:
+        return ('sub', ('bound', 0, 0), F.strip(k[3][0]))
+    if k[0] == 'call' and func_name(F.strip(k[2])) == 'attrgetter' and len(k[3]) == 1 and F.is_const(k[3][0]):
+        return ('attr', ('bound', 0, 0), k[3][0][1])
+    return None
+
+
+def _dedups(r, before):
+    """the list r cannot contain an element twice: list(dict.fromkeys(…)) / list(set(…)) / sorted(set(…)), or built by a loop
+    that appends an element only when it is not yet in a set of the elements seen (or in the list itself)"""
+    sr = F.strip(r)
+    if sr[0] == 'call' and sr[2] in (('name', 'list'), ('name', 'sorted')) and len(sr[3]) == 1 and (
+            (sr[3][0][0] == 'call' and sr[3][0][2] == ('attr', ('name', 'dict'), 'fromkeys'))
+            or (sr[3][0][0] == 'call' and sr[3][0][2] in (('name', 'set'), ('name', 'frozenset')))):
+        return True
+    uid = F.sym_uid(r)
+    if r[0] != 'list' or uid is None or r[2]:
+        return False
+    seen = 0
+    for e, chain, i, events in walk(before):
+        if not (e.kind == 'call' and e.a[0] == 'call' and e.a[2][0] == 'attr' and e.a[2][2] in ('append', 'extend', 'insert')
+                and F.sym_uid(e.a[2][1]) == uid):
+            continue
+        if e.a[2][2] != 'append' or len(e.a[3]) != 1 or not chain:
+            return False
+        x = F.strip(e.a[3][0])
+        guarded = False
+        for c, pol in F.known([(y.a, y.b) for y in events[:i] if y.kind == 'cond']):
+            if c[0] == 'cmp' and c[1] == 'in' and c[2] == x and not pol:
+                holder = c[3]
+                if holder == F.strip(r):
+                    guarded = True
+                elif any(y.kind == 'call' and y.a[0] == 'call' and y.a[2][0] == 'attr' and y.a[2][2] == 'add'
+                         and F.strip(y.a[2][1]) == holder and len(y.a[3]) == 1 and F.strip(y.a[3][0]) == x for y in events):
+                    guarded = True
+        if not guarded:
+            return False
+        seen += 1
+    return seen > 0
+
+
+def files_list_facts(flow, paths):
+    """(dedups, sorted by (size, path)) about the file list of snapshot: the list that is sorted in place before streaming"""
     dedup = sortkey = True
     seen = 0
+    b = ('bound', 0, 0)
+    want = ('tuple', (('attr', ('call', 0, ('attr', b, 'stat'), (), ()), 'st_size'), ('call', 0, ('name', 'str'), (b,), ())))
     for p in paths:
-        sorts = [e for e in p.events if e.kind == 'call' and e.a[0] == 'call' and e.a[2][0] == 'attr' and e.a[2][2] == 'sort'
-                 and F.contains(e.a[2][1], lambda t: t[0] == 'call' and func_name(F.strip(t[2])) == 'flatten_paths')]
+        sorts = [(i, e) for i, e in enumerate(p.events) if e.kind == 'call' and e.a[0] == 'call' and e.a[2][0] == 'attr' and e.a[2][2] == 'sort'
+                 and not e.a[3] and 'key' in dict(e.a[4]) and key_body(flow, dict(e.a[4])['key']) == want]
         if len(sorts) != 1:
-            return False, False
+            # not sorted that way: look for the list anyway (the first in-place sort of a list of paths)
+            sortkey = False
+            sorts = [(i, e) for i, e in enumerate(p.events) if e.kind == 'call' and e.a[0] == 'call' and e.a[2][0] == 'attr' and e.a[2][2] == 'sort'][:1]
+            if not sorts:
+                return False, False
         seen += 1
-        recv = F.strip(sorts[0].a[2][1])
-        # duplicates removed before (the order is fixed by the sort afterwards, so any set-like pass will do)
-        d = recv[0] == 'call' and recv[2] in (('name', 'list'), ('name', 'sorted')) and len(recv[3]) == 1 and (
-            (recv[3][0][0] == 'call' and recv[3][0][2] == ('attr', ('name', 'dict'), 'fromkeys'))
-            or (recv[3][0][0] == 'call' and recv[3][0][2] in (('name', 'set'), ('name', 'frozenset'))))
-        dedup = dedup and d
-        kw = dict(sorts[0].a[4])
-        k = F.strip(kw.get('key', ('const', None)))
-        b = ('bound', 0, 0)
-        want = ('tuple', (('attr', ('call', 0, ('attr', b, 'stat'), (), ()), 'st_size'), ('call', 0, ('name', 'str'), (b,), ())))
-        sk = k[0] == 'lambda' and k[1] == 1 and k[2] == want and ('reverse' not in kw or F.is_const(kw['reverse'], False))
-        sortkey = sortkey and sk
+        i, e = sorts[0]
+        kw = dict(e.a[4])
+        if 'reverse' in kw and not F.is_const(kw['reverse'], False):
+            sortkey = False
+        dedup = dedup and _dedups(e.a[2][1], p.events[:i])
     return (dedup and seen > 0), (sortkey and seen > 0)
 
 
@@ -1508,7 +1585,7 @@ def repository_section():
 
     # --- sort key of files
     fp('repository.snapshot', find_func(tree, 'Repository', 'snapshot'))
-    dedup, sortkey = attempt('files_list', lambda: files_list_facts(snap_paths), (False, False))
+    dedup, sortkey = attempt('files_list', lambda: files_list_facts(flow, snap_paths), (False, False))
     emit(f'def filesSortedBySizeThenPath : Bool := {"true" if sortkey else "false"}')
     # queue size / rate chunk
     qfactor = attempt('queueFactor', lambda: queue_factor(snap_paths))
@@ -1642,16 +1719,29 @@ def retry_policy(tree, cls_name):
             assigns[st.targets[0].id] = st.value
     consts = module_consts(tree)
 
-    def text(v):
+    def text(v, depth=0):
         if isinstance(v, ast.Name) and v.id in consts and not isinstance(consts[v.id], str):
             return repr(consts[v.id])
+        if isinstance(v, ast.Name) and v.id in assigns and isinstance(assigns[v.id], (ast.Name, ast.Attribute)) and depth < 4:
+            return text(assigns[v.id], depth + 1)          # an alias: RETRIED = OSError
         return unparse(v)
+
+    funcs = {st.name: st for st in tree.body if isinstance(st, ast.FunctionDef)}
 
     def resolve(e, depth=0):
         if depth > 6:
             return None
         if isinstance(e, ast.Name):
-            return resolve(assigns[e.id], depth + 1) if e.id in assigns else None
+            if e.id in assigns:
+                return resolve(assigns[e.id], depth + 1)
+            if e.id in funcs:
+                # a decorator function that applies the policy to the method it is given
+                for n in ast.walk(funcs[e.id]):
+                    if isinstance(n, ast.Call):
+                        r = resolve(n, depth + 1)
+                        if r is not None:
+                            return r
+            return None
         if isinstance(e, ast.Call):
             fn = unparse(e.func)
             args, kw = [text(a) for a in e.args], {k.arg: text(k.value) for k in e.keywords if k.arg}
